@@ -132,7 +132,6 @@ def t_decorators(E):
     a = E.opaque("args", "tuple")
     x = E.opaque("x")
     E.prove("C15.map.pre_is_identity_post_applies_f", E.And(
-        E.eq(ap(E, m.fields["argument_mapping"], E.real("p"), E.real("q")), (E.real("p"), E.real("q"))) if False else True,
         E.eq(ap(E, m.fields["retval_mapping"], a, a, x), ap(E, f, x)), E.eq(m.fields["inner"], g)))
     p, q = E.real("p"), E.real("q")
     E.prove("C15.map.pre_returns_args_tuple", E.eq(ap(E, m.fields["argument_mapping"], p, q), (p, q)))
